@@ -45,6 +45,8 @@ def export(cases, joint=True):
     jobs = []
     for c in cases:
         j = dict(op="compile", kind=c["kind"], want=["lexemes", "automata"], max_states=1500)
+        if joint:
+            j["lexeme_sets"] = "single+all"
         if c["kind"] == "json":
             j["schema"] = c["schema"]
         else:
